@@ -350,6 +350,14 @@ def _added_cdiag(ctx, n, batch, p):
     return op, A + diag_ref(c.expand(*batch, n))
 
 
+@builder("AddedConstDiagEig", psd=True, pd=True, tags=("eig",))
+def _added_cdiag_eig(ctx, n, batch, p):
+    A, w, Q = eig_from(ctx, p + "E")
+    c = ctx.leaf(p + "c", (1,), positive=True)
+    op = O.DenseLinearOperator(A).add_jitter(c)
+    return op, A + diag_ref(c.expand(2))
+
+
 @builder("LowRankRootAddedDiag", psd=True, pd=True)
 def _lrr_added_diag(ctx, n, batch, p):
     R_ = ctx.leaf(p + "R", batch + (n, 1))
